@@ -17,7 +17,7 @@ import ast
 
 from ..absint import EventAnalysis, run_events
 from ..helpers import collect_loop, flows_from
-from ..facts import alternatives, abs_range, atoms, call_is, equality_atoms, index_of, strip
+from ..facts import alternatives, abs_range, atoms, call_is, equality_atoms, index_of, meth_is, strip
 from ..model import AnalysisError, norm
 from ..terms import NEG, is_const, show, subterms, summarize
 
@@ -454,6 +454,26 @@ def run(ctx):
     dev_imports = [k for k, (mod, _a) in cm.imports.items() if mod.startswith("msmart.device.AC.device") or mod.startswith("msmart.base_device")]
     ctx.ob("C13.c", CMD, not dev_imports, "command.py does not reference device objects (constructing a response cannot touch device state)",
            func=CMD, file=cm.rel, construct="imports", fail=f"command.py imports device modules: {dev_imports}")
+    # what is validated is what arrived: Device._send_command hands on the frames LAN.send returned as they are (a frame trimmed, padded or
+    # re-sliced on the way is validated as a different frame - a corrupted length byte then selects a self-consistent prefix)
+    sc = ctx.fn("msmart.base_device.Device._send_command")
+    scs = summarize(prog, sc)
+    leaves_ = [y for _pc, t_, n_, _ in scs.returns if n_ is not None for y in ite_leaves(t_)]
+
+    def as_sent(y):
+        y = strip(y)
+        if y in (("const", None), ("list", ()), ("tuple", ())) or (y[0] in ("list", "tuple") and not y[1]):
+            return True
+        return y[0] == "await" and meth_is(strip(y[1]), "send") and strip(strip(y[1])[1][1]) == ("attr", ("param", sc.params[0]), "_lan")
+    ctx.count("transport_returns", len(leaves_))
+    ctx.ob("C13.c", sc.qual, bool(leaves_) and all(as_sent(y) for y in leaves_), "_send_command returns the frames of LAN.send unmodified (or nothing)", func=sc.qual, file=sc.module.rel,
+           construct="return responses", detail={"returns": [show(y)[:80] for y in leaves_]},
+           fail="_send_command alters the received frames before they are validated (`" + next((show(y)[:80] for y in leaves_ if not as_sent(y)), "") +
+                "`): the checks no longer cover the frame the device sent")
+    # ... and a rejected frame is *dropped*: the operation goes on (nothing escapes refresh / apply / get_capabilities / ... for any frame
+    # bytes) - C14's containment obligations
+    from . import c14
+    ctx.import_rules(c14, "t14", only=("C14.a", "C14.b"))
     ctx.require_min("validators", 2)
     ctx.require_min("validator_raises", 2)
     ctx.require_min("construct_returns", 1)
